@@ -152,7 +152,7 @@ class Array:
 
     def _set_dtype(self, new_dtype: Union[str, Dtype]) -> None:
         if isinstance(new_dtype, Dtype):
-            self._dtype = new_dtype
+            dtype = new_dtype
         else:
             try:
                 dtype = Dtype(new_dtype)
@@ -164,9 +164,12 @@ class Array:
                     raise ValueError(f"Inappropriate Dtype for Array: '{new_dtype}'.")
             if dtype.length is None:
                 raise ValueError(f"A fixed length format is needed for an Array, received '{new_dtype}'.")
-            self._dtype = dtype
-        if self._dtype.scale == 'auto':
+        # A refused dtype leaves the current one in place.
+        if dtype.scale == 'auto':
             raise ValueError("A Dtype with an 'auto' scale factor can only be used when creating a new Array.")
+        if dtype.bitlength == 0:
+            raise ValueError(f"The format '{dtype}' has no bits per item, so it can't be used for an Array.")
+        self._dtype = dtype
 
     def _create_element(self, value: ElementType) -> Bits:
         """Create Bits from value according to the token_name and token_length"""
